@@ -14,7 +14,7 @@ def plans(tier):
     ]
     base += [
         # a burst already queued when the set first looks at the member (more than any plausible per-event budget)
-        {"name": "bulk-queued-first", "msgs": [[1] * 48, [1, 1]], "prog": [A(1), A(2)], "simulate": 2, "caps": (2,),
+        {"name": "bulk-queued-first", "msgs": [[1] * 200, [1, 1]], "prog": [A(1), A(2)], "simulate": 2, "depth": 1500, "caps": (2,),
          "senders_first": True, "liveness": False},
         # the sender of a fragmented message is killed mid-message; observed through the set
         {"name": "kill-mid-message", "msgs": [[1, 2], [2, 1]], "prog": [A(1), A(2)], "simulate": 30, "caps": (2,),
